@@ -13,6 +13,7 @@ package server
 // Established receive loop calls for every message taken from msgRecvCh.
 
 import (
+	"bytes"
 	"fmt"
 	"runtime/debug"
 	"sort"
@@ -65,6 +66,9 @@ func c19GenSess(t *rapid.T) c19Sess {
 	default:
 		s.V4, s.V6 = true, true
 	}
+	// add-path can only be negotiated for a configured family (decodeOptions)
+	s.AP4 = s.AP4 && s.V4
+	s.AP6 = s.AP6 && s.V6
 	return s
 }
 
@@ -132,17 +136,28 @@ func c19NewRig(s c19Sess) *c19Rig {
 	return r
 }
 
-// c19Frame gives the message the shape msgReceived sees it in: the BGP
-// receiver (recvMsg) hands over its whole 4096-byte zero-initialised read
-// buffer with the message at the front; the BMP router hands over the exact
-// slice.
-func c19Frame(msg []byte, padded bool) []byte {
-	if !padded || len(msg) > 4096 {
+// c19Conn is a read-only net.Conn over a byte string (input of recvMsg).
+type c19Conn struct {
+	fakeConn
+	r *bytes.Reader
+}
+
+func (c *c19Conn) Read(b []byte) (int, error) { return c.r.Read(b) }
+
+// c19Frame gives the message the shape msgReceived sees it in. viaRecv: the
+// bytes are read from a connection by the real recvMsg (the BGP receiver
+// goroutine's function), whatever it returns goes to msgReceived - at the time
+// of writing that was its whole 4096-byte zero-padded read buffer. Otherwise:
+// the exact slice (what the BMP router hands over).
+func c19Frame(msg []byte, viaRecv bool) []byte {
+	if !viaRecv {
 		return append([]byte{}, msg...)
 	}
-	b := make([]byte, 4096)
-	copy(b, msg)
-	return b
+	data, err := recvMsg(&c19Conn{r: bytes.NewReader(msg)})
+	if err != nil {
+		panic(fmt.Sprintf("harness: recvMsg failed on a complete message: %v", err))
+	}
+	return data
 }
 
 // feed passes one message through msgReceived. It returns the recovered panic
@@ -404,7 +419,9 @@ func c19GenAttrs(t *rapid.T, s c19Sess, needNH bool) c19Attrs {
 	a.Atomic = rapid.IntRange(0, 3).Draw(t, "atomic") == 0
 	if rapid.IntRange(0, 3).Draw(t, "aggr") == 0 {
 		a.HasAggr = true
-		a.AggrASN = c19GenASN(t, s.ASN4, "aggrasn")
+		// <= 65535 also on 4-byte-ASN sessions (where the attribute is 8 bytes long):
+		// types.Aggregator.ASN is a uint16, what becomes of a bigger ASN is not judged
+		a.AggrASN = c19GenASN(t, false, "aggrasn")
 		a.AggrAddr = [4]byte{192, 0, 2, byte(rapid.IntRange(1, 254).Draw(t, "aggraddr"))}
 	}
 	if rapid.IntRange(0, 2).Draw(t, "comms") == 0 {
@@ -689,7 +706,10 @@ func c19GenMsg(t *rapid.T, s c19Sess, u c19Universe, maxN int, wantAnnounce bool
 		}
 	}
 	announces := len(m.Nl) > 0 || m.Reach != nil
-	if !announces && rapid.Bool().Draw(t, "noattrs") {
+	if !announces {
+		// withdraw-only UPDATEs carry no attributes besides MP_UNREACH_NLRI (RFC 4271
+		// sect. 4.3); bio-rd insists on all three mandatory attributes as soon as one
+		// of them is present, which no real speaker triggers on a withdraw
 		m.NoAttrs = true
 	} else {
 		m.A = c19GenAttrs(t, s, len(m.Nl) > 0)
